@@ -226,7 +226,9 @@ def run(case):
     datasets = [tiny.client_dataset(s) for s in case['pop']]
   clients_of = (lambda r: _agg_clients(case, r)) if is_agg else (lambda r: _clients_for(case, r, datasets))
   obs = {'init': _init_classes(name, state), 'rounds': [], 'restore_same': True, 'err': None,
-         'rebranch_same': True, 'fresh_same': True}
+         'rebranch_same': True, 'fresh_same': True, 'init_same': True, 'second_history_same': True}
+  init_snap = tiny.snapshot(state)
+  init_conts = tiny.containers(state)
   restored, post = None, []
   states, outs = [], []      # the input state object and the recorded result of every call of the main history
   nr = len(case['rounds'])
@@ -275,6 +277,11 @@ def run(case):
         sizes = [sum(case['pop'][i]['cnt']) for i in case['rounds'][r]]
         ro['assign'] = ids
         ro['live'] = [any(a == k and n > 0 for a, n in zip(ids, sizes)) for k in range(hp.get('K', 2))]
+      if name == 'apfl':
+        # evaluating the personalised models (whole population, generator consumed) must leave the state alone
+        eb, ec = tiny.snapshot(s1), tiny.containers(s1)
+        list(tiny.apfl_eval()(s1, [(tiny.cid(i), d) for i, d in enumerate(datasets)]))
+        ro['eval_state_same'] = tiny.same_snapshot(eb, tiny.snapshot(s1)) and not tiny.writes(ec)
       ro['nclients'] = len(clients)
       ro['trained_examples'] = 0 if is_agg else sum(sum(case['pop'][i]['cnt']) for i in case['rounds'][r])
       obs['rounds'].append(ro)
@@ -290,6 +297,18 @@ def run(case):
       if r == case['branch']:
         restored = _serialise(state, case.get('ser', 'pickle'))
         post.append(tiny.same_snapshot(tiny.snapshot(state), tiny.snapshot(restored)))
+    # the very first state object still has its value, init() on the same object gives it again, and a
+    # second history from that second init() repeats the first one
+    obs['init_same'] = tiny.same_snapshot(init_snap, tiny.snapshot(states[0])) and not tiny.writes(init_conts)
+    try:
+      st2 = obj.init() if is_agg else tiny.init_state(name, hp, obj)
+      obs['init_same'] &= tiny.same_snapshot(init_snap, tiny.snapshot(st2)) and _init_classes(name, st2) == obs['init']
+      for r in range(min(2, nr)):
+        st2, dd = _call(name, obj, st2, clients_of(r), is_agg)
+        obs['second_history_same'] &= _same_out(outs[r], st2, dd)
+    except Exception as ex:
+      obs['second_history_same'] = False
+      obs['second_history_err'] = type(ex).__name__ + ': ' + str(ex)[:120]
     # branch a second time from the very state object the history branched from
     b = case['branch'] + 1
     if b < nr:
@@ -337,10 +356,16 @@ def oracle(case, obs):
       out.append((n + '.not-repeatable', f'{n} round {r}: a second apply() with the same arguments returned a different state / diagnostics'))
     if not ro.get('earlier_call_same', True):
       out.append((n + '.hidden-state', f'{n} round {r}: an earlier call repeated after other calls through the same object returned a different result'))
+    if not ro.get('eval_state_same', True):
+      out.append((n + '.eval-mutates-state', f'{n} round {r}: evaluating the personalised models changed the server state it was given'))
     if not ro['first_result_readable']:
       out.append((n + '.result-invalidated', f'{n} round {r}: the first result changed or was deleted by the second call'))
   if not obs['restore_same']:
     out.append((n + '.restore-diverges', f'{n}: continuing from the serialised-and-restored state diverged from the original continuation'))
+  if not obs.get('init_same', True):
+    out.append((n + '.init-not-repeatable', f'{n}: after the history the first state object / a second init() on the same object no longer has the initial value'))
+  if not obs.get('second_history_same', True):
+    out.append((n + '.second-history-differs', f'{n}: a second history from a second init() on the same object differs from the first'))
   if not obs.get('rebranch_same', True):
     out.append((n + '.rebranch-diverges', f'{n}: branching a second time from the same state gave different states'))
   if not obs.get('fresh_same', True):
